@@ -170,6 +170,32 @@ TEXT_ADD5 = {
  "C07": " The CLI refuses for -s only the value 0, also when the test sits in a helper that receives the flag by address.",
  "C12": " Merge orders the receiver after appending on every path, not only when the argument starts before the receiver ends.",
 }
+TECH_ADD6 = {
+ "C01": "blank tests on the raw token only; escape program run on entity patterns (injectivity); no half-unit rounding; no clock parser in timestamp parsers; narrow integer parses cover their field",
+ "C02": "blank tests on the raw token only; every part of a tag consulted on every path of startTag; no half-unit rounding; no clock parser",
+ "C03": "raw inner XML trimmed at the start of a line only; no half-unit rounding; no clock parser",
+ "C04": "no half-unit rounding; no clock parser; narrow integer parses cover their field",
+ "C05": "narrow integer parses cover the width of the GSI field they read",
+ "C06": "parsePacketHeader evaluated for the 255 page numbers other than FF: the end-of-page test is reached before any return",
+ "C07": "CLI fatal exits decided by one plain value against a constant; merge test of Unfragment has no third condition; no half-unit rounding; no clock parser",
+ "C09": "CLI fatal exits decided by one plain value against a constant",
+ "C11": "the merge test has no third condition; sameness through a map keyed by Item.String()",
+ "C12": "keyed stable sort (keys[k] = Items[k].StartAt, Swap exchanges both slices)",
+ "C14": "Duration reads cue boundaries only; every clip of EndAt inside a loop over the cues; the cut as a filter in place",
+ "C15": "CLI fatal exits decided by one plain value against a constant",
+ "C16": "no half-unit rounding in writers; no clock parser in timestamp parsers",
+}
+TEXT_ADD6 = {
+ "C01": " A run of no-break spaces is not taken for blank; escaping does not decode first.",
+ "C02": " A tag with classes and an annotation is written with both.",
+ "C03": " White space at the end of a source line of a paragraph is kept.",
+ "C05": " GSI counters of five digits are read up to 99999.",
+ "C06": " A header of any page other than FF reaches the end-of-page test.",
+ "C11": " Two cues merge on equal text and touching times, nothing else.",
+ "C14": " Duration depends on cue boundaries only and every cue ending after d is clipped.",
+ "C15": " The CLI refuses no slope the library accepts.",
+ "C16": " Timestamps of 24 h and more are read back; writers truncate, never round to nearest.",
+}
 for k, v in TECH_ADD.items():
     TECH[k] += "; " + v
 for k, v in TEXT_ADD.items():
@@ -189,6 +215,10 @@ for k, v in TEXT_ADD4.items():
 for k, v in TECH_ADD5.items():
     TECH[k] += "; " + v
 for k, v in TEXT_ADD5.items():
+    TEXT[k] += v
+for k, v in TECH_ADD6.items():
+    TECH[k] += "; " + v
+for k, v in TEXT_ADD6.items():
     TEXT[k] += v
 NOTE = "Assumes P0 (non-nil receivers/arguments), P1 (non-nil model elements, map keys = IDs), library contracts in internal/chk/contracts.go, and the fidelity of go/ssa + VTA (x/tools v0.29.0). Audited residue entries in rules/residue.txt are trusted."
 props = [json.loads(l) for l in open("/verif/properties.jsonl")]
